@@ -172,6 +172,7 @@ TreeFails(e) ==
             \* children of this node follows from that and is not judged a second time
             acceptedchild == \E j \in DOMAIN e.alone : e.alone[j].tree.k = "none" /\ Verdict(e.alone[j].ty, e.alone[j].val) = "R"
         IN IF acceptedchild THEN tb \ {"children-keys"} ELSE tb)
+       \cup (IF "fresh" \in DOMAIN e /\ e.fresh = "F" THEN {"tree-depends-on-history"} ELSE {})
        \cup (* each child equals the tree the element's own type reports for the sub-value alone *)
           (IF e.tree.k = "prod" /\ e.ty.k \notin {"union", "tagged", "ann", "sub", "tvar", "enum", "ndarray"}
            THEN LET mine == {e.tree.ch[i][2] : i \in {j \in DOMAIN e.tree.ch : e.tree.ch[j][2].k # "dup"}}
